@@ -67,10 +67,45 @@ PROPS = {
         "assumptions": ["assumed L0 model of chrono::NaiveDate: a totally ordered day number (vx/prelude/chrono.rs)", L0_DECIMAL, L0_HANDLES, L0_STD, L1_AMOUNT],
         "not_decided": ["Ledger::balance re-fold (flat_map/filter_map closures), Balance::round, RegisterCmd running total"],
     },
+    "C06": {
+        "level": "other",
+        "verus": [("prettydec", ["from_str"]),
+                  ("bookkeep", ["PriceRepositoryBuilder::insert_price", "callsite:insert_impl division", "check_balance", "posting_price_event", "add_transaction", "process_posting"]),
+                  ("amounts", None), ("balance", None), ("intern", ["InternStore::insert_canonical_impl", "InternStore::insert_alias_impl"])],
+        "kani": {"quick": ["parse_error_new_bounded", "compute_line_number_bounded", "clip_complete"], "thorough": ["display_roundtrip_bounded", "parsed_context_line_and_slice"]},
+        "family": ("c06", {"quick": ["quick"], "thorough": ["thorough"]}),
+        "technique": "contract-based deductive verification (Verus safety/termination obligations of the contracted kernels) + Kani with unwinding assertions on the real crate for the loops that live in std",
+        "explanation": "PARTIAL.  A deductive verifier proves absence of panics and termination by default; C06 collects those obligations for the kernels that sit on the hazards the property names: "
+                       "from_str (i128 overflow, scale overflow, indexing, loop termination: all string lengths), insert_price / insert_impl and check_balance (Decimal division by zero), posting_price_event "
+                       "(unreachable! turned into an obligation), add_transaction (indexing postings[u]), the amount/balance kernels (unwrap/expect reachability), the two debug_assert!s of InternStore as obligations; "
+                       "Kani (bounded, unwinding assertions on): ParseError::new terminates and stays in range for every failure offset including end of input, compute_line_number's assert precondition, clip has "
+                       "no underflow (complete), Display for PrettyDecimal does not panic (|mantissa| < 10^7, scale <= 3).  NOT decided: totality of the winnow parser on arbitrary text, include cycles, the CLI main.",
+        "units_doc": ["see C01, C02, C03, C07, C12 units", "core/src/parse/error.rs: ParseError::new, compute_line_number (Kani)", "core/src/parse/adaptor.rs: clip (Kani)", "core/src/syntax/pretty_decimal.rs: Display (Kani, bounded)"],
+        "assumptions": [L0_DECIMAL, L0_HANDLES, L0_STD, L1_AMOUNT, L1_BOOK, STUBS, "overflow panics of Decimal + - * are outside C06 by its own 'representable range' clause",
+                        "Kani: ASCII text <= 6 bytes over {LF, CR, space, a, ;}"],
+        "bounded": ["parse_error_new_bounded (text <= 6 bytes)", "compute_line_number_bounded (text <= 6 bytes)", "display_roundtrip_bounded (|m| < 10^7, scale <= 3)"],
+        "not_decided": ["winnow parser totality on arbitrary text", "self-including files (load_impl recursion has no measure)", "cli main error mapping"],
+        "unwind_is_violation": ["parse_error_new_bounded"],
+    },
+    "C14": {
+        "level": "other",
+        "verus": [],
+        "kani": {"quick": ["compute_line_number_bounded", "parse_error_new_bounded", "clip_complete", "resolve_is_clip", "parsed_context_line_and_slice"], "thorough": []},
+        "technique": "Kani on the real okane-core crate: harness modules injected next to parse/error.rs and parse/adaptor.rs; loop-free harnesses over the full usize domain are complete proofs, string harnesses are bounded",
+        "explanation": "PARTIAL / BOUNDED.  On the real compiled code: compute_line_number(s, pos) = 1 + number of LF before pos; ParsedContext::compute_line_start is that at the entry's span start and as_str is the "
+                       "entry's slice; ParseError::new reports the first line of the failed entry, an error span starting at the failure offset and ending inside the remaining text, for every entry start and failure "
+                       "offset (ASCII text <= 6 bytes, CR/LF included) — bounded; clip / ParsedSpan::resolve map a tracked span inside the entry to entry-relative offsets without underflow — complete (loop-free, full usize).",
+        "units_doc": ["core/src/parse/error.rs: compute_line_number, ParseError::new", "core/src/parse/adaptor.rs: clip, ParsedSpan::resolve, ParsedContext::{compute_line_start, as_str}"],
+        "assumptions": ["Kani 0.68 / CBMC 6.11 model of std", "text restricted to ASCII bytes {LF, CR, space, a, ;} of length <= 6 (multi-byte text is not covered; LF never occurs inside a multi-byte sequence)",
+                        "TrackedSpan constructor injected under cfg(kani) (the real one is cfg(test))"],
+        "bounded": ["text <= 6 bytes for the three string harnesses"],
+        "not_decided": ["which file path reaches ErrorContext::new (load_impl, C11)", "rendering by annotate_snippets", "that spans produced by winnow lie inside their entry"],
+        "unwind_is_violation": ["parse_error_new_bounded"],
+    },
     "C07": {
         "level": "proof",
         "verus": [("prettydec", None)],
-        "kani": {"quick": [], "thorough": []},
+        "kani": {"quick": [], "thorough": ["display_roundtrip_bounded"]},
         "family": ("c07", {"quick": ["4"], "thorough": ["6"]}),
         "explanation": "Verus discharges, for strings of every length, that PrettyDecimal::from_str (text extracted from /repo on this run) "
                        "returns Ok exactly for well-formed representable literals and then carries exactly the written mantissa, scale and grouping style; "
@@ -126,6 +161,7 @@ PROPS = {
     "C19": {
         "level": "proof",
         "verus": [("columns", None)],
+        "kani": {"quick": ["get_column_complete"], "thorough": []},
         "explanation": "Verus proves the column arithmetic of formatted postings on get_column, Alignment::{absolute,plus} and on the two get_column call expressions sliced out of Display for Posting: "
                        "padding is always >= 2, a short account makes the amount's numeric part end at column 52 and a balance-only posting's `=` land where it would after an amount; the indent literals "
                        "of posting and metadata lines are exactly four spaces.",
